@@ -601,10 +601,13 @@ func (c *Canary) handleTCP(eh *ethernet.Frame, iph *ipv4.Header, data []byte) er
 		// In addition to the processing for the ESTABLISHED state, if
 		// our FIN is now acknowledged then enter FIN-WAIT-2 and continue
 		// processing in that state.
-		state.State = SocketFinWait2
-	} else if state.State == SocketFinWait2 {
-		state.State = SocketTimeWait
+		if hdr.AckNum == state.SendNext {
+			state.State = SocketFinWait2
+		}
 	}
+
+	// FIN-WAIT-2 is left by the FIN of the peer only (handled below): an ACK, with or without
+	// data, keeps the connection there
 
 	if state.State == SocketEstablished ||
 		state.State == SocketFinWait1 ||
@@ -640,7 +643,7 @@ func (c *Canary) handleTCP(eh *ethernet.Frame, iph *ipv4.Header, data []byte) er
 		// over the FIN, and Option an acknowledgment for the FIN.  Note that
 		// FIN implies PUSH for any segment text not yet delivered to the
 		// user.
-		state.RecvNext = hdr.SeqNum
+		state.RecvNext = hdr.SeqNum + uint32(len(hdr.Payload))
 
 		if state.State == SocketSynReceived || state.State == SocketEstablished {
 			// Enter the CLOSE-WAIT state.
@@ -659,6 +662,10 @@ func (c *Canary) handleTCP(eh *ethernet.Frame, iph *ipv4.Header, data []byte) er
 			// If our FIN has been ACKed (perhaps in this segment), then
 			// enter TIME-WAIT, start the time-wait timer, turn off the other
 			// timers; otherwise enter the CLOSING state.
+			state.RecvNext++
+
+			c.send(state, []byte{}, tcp.ACK)
+
 			state.State = SocketClosing
 		} else if state.State == SocketFinWait2 {
 			state.RecvNext++
